@@ -469,10 +469,20 @@ func (rm *RegistrationManager) NewRegistrationC2SWrapper(c2sw *pb.C2SWrapper, in
 	if ipOverride != nil {
 		// If the ipOverride (which is populated by Ipv4Addr or Ipv6Addr from the registration response) 
 		// is not empty, use it to override the phantom IP that the station derived
+		if ipOverride.To16() == nil || (ipOverride.To4() == nil) != includeV6 {
+			// Not an address of the family this registration is built for: it could neither be
+			// matched against incoming connections nor be announced to the detector.
+			return nil, fmt.Errorf("failed because phantom override is not a valid address")
+		}
 		reg.PhantomIp = ipOverride
         }
 
 	clientAddr := net.IP(c2sw.GetRegistrationAddress())
+	if clientAddr.To16() == nil {
+		// Neither 4 nor 16 bytes: no address family to check the phantom against and
+		// nothing the detector would accept as the client of the session.
+		return nil, fmt.Errorf("failed because registration address is not an IP address")
+	}
 
 	if reg.PhantomIp.To4() != nil && clientAddr.To4() == nil {
 		// This can happen if the client chooses from a set that contains no
